@@ -61,11 +61,7 @@ fn apply(g: &mut dyn Gen, op: &POp) -> Vec<u8> {
     match op {
         POp::U32 => g.next_u32().to_le_bytes().to_vec(),
         POp::U64 => g.next_u64().to_le_bytes().to_vec(),
-        POp::Fill(n) => {
-            let mut b = vec![0u8; *n];
-            g.fill(&mut b);
-            b
-        }
+        POp::Fill(n) => crate::ops::fill_unaligned(g, *n),
     }
 }
 
@@ -285,8 +281,7 @@ pub fn check_hist(c: &HistCase) -> CheckResult {
                         g.next_u64();
                     }
                     HOp::Fill(n) => {
-                        let mut b = vec![0u8; *n];
-                        g.fill(&mut b);
+                        crate::ops::fill_unaligned(&mut **g, *n);
                     }
                     _ => {}
                 }
